@@ -177,6 +177,9 @@ def build_config(case):
                 kw = {"p": cl["p"]}
                 if cl["fault"]:
                     kw["fault"] = cl["fault"]
+                if "falsy_body" in cl:
+                    # "no parameters" written as an empty list / false / 0 / '' instead of an empty mapping
+                    kw = {"list": [], "false": False, "zero": 0, "empty": ""}[cl["falsy_body"]]
                 streams.setdefault(cl["stream"], {}).setdefault("qartod", {})[cl["test"]] = kw
         ctx = {"streams": streams}
         if c["start"] is not None or c["end"] is not None:
@@ -456,6 +459,11 @@ def gen_stream(tier, rng, frontends=("pandas", "numpy", "netcdf", "xarray"), fau
                     if faults and rng.random() < 0.35:
                         fault = rng.choice([1, 2, 3, 3])
                     entries.append({"kind": "call", "stream": sname, "test": tname, "p": rng.randint(0, 4), "fault": fault})
+                    if faults and not fault and rng.random() < 0.08:
+                        # a test configured without parameters (all defaults), the empty block spelled as a falsy
+                        # non-mapping: it runs like the same test with `{}`
+                        entries[-1]["p"] = 0
+                        entries[-1]["falsy_body"] = rng.choice(["list", "false", "zero", "empty"])
                 if faults and rng.random() < 0.3:
                     entries.insert(rng.randint(0, len(entries)),
                                    {"kind": rng.choice(["unknown_module", "unknown_test"]), "stream": sname})
